@@ -57,9 +57,10 @@ prop("C08", "proof", "Lean 4 theorems over all traces and all lookup functions +
 prop("C09", TV, "Lean 4 model + differential correspondence (proof in progress)",
      "Bytes of the cache writer equal the model's bytes; an independent decoder + well-formedness predicate written in Lean from the documented format only (PG/Spec/Format.lean: magic, version, counts, strict class order, tiling of member / by-params ranges, member order, zero padding, alignment, string section length, every referenced offset a length-prefixed UTF-8 string or the absent sentinel) is run on the bytes the crate actually wrote; the crate's own self-test accepts every written file.",
      "Model hand-written; tie is differential.", needs_layout=True, fmt=True)
-prop("C10", TV, "Lean 4 model (current + frozen pinned reader) + cross-release differential run",
-     "Both releases (vendored 5.5.0 snapshot and current tree) write every mapping; both readers read both files and must agree query for query or reject with WrongVersion; models of both readers are tied to their crates.",
-     "Pinned release = vendored snapshot under /verif/pinned.", oracle=True, needs_layout=True)
+prop("C10", "proof", "Lean 4 theorems (layout frozen against the current source, reader compatibility on every buffer) + cross-release differential run",
+     "Kernel-checked: (1) layout_frozen — re-checked on every run against PG/Generated/Layout.lean, which is regenerated from /repo/src/cache/raw.rs: while the source declares format version 1 its magic, the names/types/order of the Header, Class and Member fields and the Class sentinels are exactly those of the pinned release, so a layout or sentinel change without a version bump breaks a proof obligation; (2) C10_reader_compat — for every buffer and every line-based frame query, whenever the frozen model of the 5.5.0 reader answers, the current reader model gives the identical answer (all other primitive queries are the same model functions); C10_no_fault — the 5.5.0 reader's unchecked arithmetic cannot fault on buffers of the shape either release writes from mappings with line numbers < 2^32; C10_version_gate — any other version is rejected with the wrong-version error. Both reader models are tied to their crates (vendored 5.5.0 snapshot and current tree) on files written by both writers, and both crates cross-read both writers' files and are compared query for query on every run.",
+     "The pinned *writer* is not modelled (repairs F1/F7 changed what the writer emits for some mappings); that both writers' files are read identically by both readers is established by the cross-release differential run, not proved. remap_stacktrace_typed is excluded from the comparison (repair F3 changed it independently of the file format).",
+     theorems=["PG.layout_frozen", "PG.layout_model_arity", "PG.C10_reader_compat", "PG.C10_no_fault", "PG.C10_version_gate"], oracle=True, needs_layout=True)
 prop("C11", TV, "Lean 4 model + differential correspondence (proof in progress)",
      "Every strict prefix and every header edit of written files: error kind of model vs crate; oracle: an accepted prefix answers like the full file.",
      "Model hand-written; tie is differential.", oracle=True)
